@@ -437,6 +437,8 @@ def loaderOpOf (gw : Option String) (cli : Bool) (j : Json) : Except String Load
   match o with
   | "serve" =>
     pure (.serve (← jstr j "u") (← (← j.getObjVal? "v").getNat?) ⟨← (← j.getObjVal? "storable").getBool?, ← (← j.getObjVal? "lifetime").getInt?⟩)
+  | "serveAlt" =>
+    pure (.serveAlt (← jstr j "u") (← jstr j "target") ⟨← (← j.getObjVal? "storable").getBool?, ← (← j.getObjVal? "lifetime").getInt?⟩)
   | "fail" => pure (.fail (← jstr j "u"))
   | "tick" => pure (.tick (← (← j.getObjVal? "n").getNat?))
   | _ =>
